@@ -123,11 +123,19 @@ def runRandom (fp : Foot) (cap n : Nat) : Nat → Nat → Cfg Pat → Cfg Pat
     | none => c
     | some i => runRandom fp cap n fuel (lcg seed) (tick fp cap c i)
 
+/-- mark-metadata calls do not touch the stream: a metadata-only call here
+    (their own guards are C17's subject, Drivers/Rt handles them) -/
+def parseOpC (ws : List String) : Option (Op Pat) :=
+  match ws with
+  | "marktype" :: _ => some .metaOp
+  | "marklabel" :: _ => some .metaOp
+  | _ => parseOp ws
+
 def mt (ws : List String) : String :=
   match Drivers.splitTok "|" ws with
   | [seed] :: scripts =>
     let progs := scripts.map fun line =>
-      ((Drivers.splitTok ";" line).filter (fun l => !l.isEmpty)).mapM parseOp
+      ((Drivers.splitTok ";" line).filter (fun l => !l.isEmpty)).mapM parseOpC
     match seed.toNat?, progs.mapM id with
     | some seed, some progs =>
       let n := progs.length
